@@ -310,6 +310,24 @@ pub fn facts_to_prog(rng: &mut Rng, f: &Facts, po: &ProgOpts, case: &mut Case) {
     if po.shuffle {
         rng.shuffle(&mut calls);
     }
+    // once a record is registered its name is fixed: later calls for the same id may carry ANY
+    // name (the first one wins), also failing ones
+    let mut registered: BTreeSet<(String, String)> = BTreeSet::new();
+    for call in calls.iter_mut() {
+        let toks: Vec<String> = call.split(' ').map(|x| x.to_string()).collect();
+        let key = (toks[1].clone(), toks[2].clone());
+        let succeeds = toks[0] == "addrec" || toks[4].parse::<u32>().map(|t| present.contains(&t)).unwrap_or(false);
+        if registered.contains(&key) {
+            if rng.chance(1, 6) {
+                let mut t2 = toks.clone();
+                t2[3] = name("another name for a known record");
+                *call = t2.join(" ");
+                case.stat("calls_with_other_name_for_known_record", 1);
+            }
+        } else if succeeds {
+            registered.insert(key);
+        }
+    }
     for c in calls {
         case.op(c);
     }
